@@ -251,6 +251,18 @@ def run_case(case, mode):
     rt.reset(case["script"])
     for h in case["handlers"]:
         h["wrap"] = (mode == "probe" and h["kind"] == "imm" and has_tag2(h["sel"]))
+    if case.get("pre"):
+        # a history is only a history on functions nobody has probed before: fresh function objects for this case
+        import importlib
+        importlib.reload(world)
+        ENV.update({k: v for k, v in vars(world).items() if not k.startswith("__")})
+    for text in case.get("pre", []):
+        # an earlier probe lifetime on the same functions (already over when the case starts)
+        try:
+            with probing(text, env=ENV):
+                pass
+        except Exception:
+            pass
     cms = {"overlay": run_overlay, "probe": run_probe, "api": run_api}[mode](case)
     rt.LOG.append(("env", "catch_f", case.get("arg", 0)))
     outcome = "ok"
